@@ -6,7 +6,7 @@ claim("C01", "lockset + value-provenance (SSA access paths) + channel typestate"
       "enqueued ID and the newID() result are one SSA value; the response copied to a client is the one received on that "
       "activation's own unbuffered channel (single receive site, not in a loop); the agent-facing endpoints use the request ID "
       "of their own call; (backend ID, request ID) travel in the right parameter roles from the pending list to the upload "
-      "headers. no per-request closure, goroutine-in-loop or pool shares scratch memory or loop variables between activations; the App Engine proxy's GET response cache uses one injective key of (user, URL). session numbers are never given back; App Engine blob parts keep their order; the stand-alone proxy forces chunked framing so one request's response cannot be cut short into the next; an interim 1xx never latches a writer and a superseded upload attempt cannot take bytes of the retry (shared with C03.X, C06.X). no append builds on a slice reachable from a value shared between requests; session-table keys come from the atomic counter on every path. Not decided: interleavings inside net/http, ID collision probability, payload bytes.")
+      "headers. no per-request closure, goroutine-in-loop or pool shares scratch memory or loop variables between activations; the App Engine proxy's GET response cache uses one injective key of (user, URL). session numbers are never given back; App Engine blob parts keep their order; the stand-alone proxy forces chunked framing so one request's response cannot be cut short into the next; an interim 1xx never latches a writer and a superseded upload attempt cannot take bytes of the retry (shared with C03.X, C06.X). no append builds on a slice reachable from a value shared between requests; session-table keys come from the atomic counter on every path. every ResponseWriter hands its slice whole to the underlying writer (no Content-Length guard truncates a body); memcache keys are injective in (backend, request). Not decided: interleavings inside net/http, ID collision probability, payload bytes.")
 
 claim("C02", "who-may-write table over resolved mutation sites + sibling tables + construction-site checks",
       "Byte identity through net/http is not decided. Decides that nothing in this repository's code on the request path alters "
@@ -14,7 +14,7 @@ claim("C02", "who-may-write table over resolved mutation sites + sibling tables 
       "*http.Request in the proxy's client path and the agent's handler chain is enumerated), that both hop-by-hop tables equal "
       "the RFC 7230 set, that the backend-facing proxy is httputil.NewSingleHostReverseProxy of a Scheme+Host URL without "
       "Director/Rewrite override, that the request object stored, serialised (Request.Write), parsed (private bufio.Reader) and "
-      "served is one chain of custody, that the fetched reply body stays open until the request was forwarded, that no pooled buffers carry request bytes, that no fetch helper defers the cancel of the context its returned response still needs, that the agent never reads the body of the request it forwards, that the live value slices of request header fields are not sorted or overwritten in place (in any function of package agent), and that no ServeMux/StripPrefix/TimeoutHandler sits on the pass-through route.")
+      "served is one chain of custody, that the fetched reply body stays open until the request was forwarded, that no pooled buffers carry request bytes, that no fetch helper defers the cancel of the context its returned response still needs, that the agent never reads the body of the request it forwards, that the live value slices of request header fields are not sorted or overwritten in place (in any function of package agent), that the stored client request's body is touched by Request.Write only in the stand-alone proxy (no peeking reader left behind), and that no ServeMux/StripPrefix/TimeoutHandler sits on the pass-through route.")
 
 claim("C03", "ownership-transfer rule + taint (tokeniser as sanitiser) + partial evaluation of status comparisons + dominance",
       "Byte identity through Response.Write/ReadResponse is not decided. Decides the repository-specific shapes the statement's "
@@ -22,7 +22,7 @@ claim("C03", "ownership-transfer rule + taint (tokeniser as sanitiser) + partial
       "with the writer's fields, directly or through its accessor); declared-trailer names pass a comma tokeniser before being "
       "used as keys; 1xx statuses never latch a ResponseWriter or get published, all final statuses (incl. 101) do — evaluated "
       "for representative statuses of each class; every header/trailer copy is guarded by the hop-by-hop predicate on the same "
-      "key and by no other filter; chunked framing is forced before serialisation; a final status after an interim one is still forwarded (two-call simulation of every ResponseWriter), retries restart through the refusing rewind and replay exactly the retained bytes (shared with C06.R/B), the stand-alone proxy forces chunked framing unconditionally, writer types grow no optional net/http interfaces; wrappers forward their own status and slice.")
+      "key and by no other filter; chunked framing is forced before serialisation; a final status after an interim one is still forwarded (two-call simulation of every ResponseWriter), retries restart through the refusing rewind and replay exactly the retained bytes (shared with C06.R/B), the stand-alone proxy forces chunked framing unconditionally, writer types grow no optional net/http interfaces; wrappers forward their own status and slice; the streaming writer's Close ends the body pipe cleanly on every path and nothing closes its write end with an error of the writer's own making.")
 
 claim("C04", "dominance / must-pass-through + confinement (escape) analysis + call-site uniqueness + channel typestate",
       "Decides for every order and grouping of pending-list replies: the worker start is control-dependent on the miss of the "
@@ -38,7 +38,7 @@ claim("C05", "deny-list over the static call closure of the response path + stru
       "closure of the path's entry points; every Write forwards its own slice with one underlying Write outside loops; every "
       "upload-path Reader does one underlying Read per call outside loops; the serialiser does not wrap the body it writes; the "
       "two io.Pipes are wired as designed; chunked framing is forced; FlushInterval is negative or ≤ 1 s; the HTML splice does one "
-      "bounded Read; the response is published from WriteHeader; the replay reader returns buffered bytes without first reading the source; no lock is held across a metrics RPC on the response path and the serialiser never blocks on metrics; recording a status code waits for no other goroutine; a writer latches at most once.")
+      "bounded Read; the response is published from WriteHeader; the replay reader returns buffered bytes without first reading the source; no lock is held across a metrics RPC on the response path and the serialiser never blocks on metrics; recording a status code waits for no other goroutine; a writer latches at most once; the pipes of the response path are closed by their owners only (no watchdog or idle timer on the writer).")
 
 claim("C06", "counted-loop evaluation + must-pass-through + truth tables by partial evaluation + lockset + pairing rules",
       "Decides for every fault sequence: at most three attempts (counted loop evaluated; the request is not replayable by net/http itself: no GetBody); every path from one client.Do to the "
@@ -46,7 +46,7 @@ claim("C06", "counted-loop evaluation + must-pass-through + truth tables by part
       "(writeHead vs len(buf), offset, whence evaluated on boundary values); the replay state is only touched under its mutex, "
       "each attempt reads through the handle returned by its own rewind and a stale generation never reaches the source; one failed chain of attempts is not restarted by an outer loop; the replay buffer retains exactly p[k:k+n] at writeHead (offset agreement on sample values); both "
       "forwarder goroutines close their pipe end and error channel on every exit, CloseWithError propagates failures, Close() "
-      "drains both channels. Not decided: attempt bytes for a given fault offset inside http.Transport.")
+      "drains both channels; a RoundTrip of the module sends once (no resend below the retry loop). Not decided: attempt bytes for a given fault offset inside http.Transport.")
 
 claim("C07", "VTA call-graph reachability + lockset + shared-state inventory + channel typestate + nil-through-channel rule",
       "Decides the ways this code base can kill or wedge the whole agent from per-request code: no process-terminating call in "
@@ -54,7 +54,7 @@ claim("C07", "VTA call-graph reachability + lockset + shared-state inventory + c
       "under its mutex (exclusive lock, RLock does not count for mutating accessors); every shared map / non-goroutine-safe object "
       "is guarded, per-request or read-only after construction; the dedup LRU is confined to the poller; no unchecked type "
       "assertion on per-request paths; possibly-nil messages are nil-checked across the shim channels; no close of a multi-sender "
-      "channel; published response maps are not aliased; JSON-decoded pointer elements are nil-tested; channels are closed only by their sole sender; one worker goroutine per fetched request, started without waiting for earlier ones; offsets found by searching one value only slice that value; no nil result travels with an error that was tested nil; shim sessions are forgotten only by close and failed polls; only reasoned fields of the reverse proxy are set; default 502 error handler. the forwarder never replaces the fetched request object; each shim queue has one sending side. Not decided: panics inside dependencies.")
+      "channel; published response maps are not aliased; JSON-decoded pointer elements are nil-tested; channels are closed only by their sole sender; one worker goroutine per fetched request, started without waiting for earlier ones; offsets found by searching one value only slice that value; no nil result travels with an error that was tested nil; shim sessions are forgotten only by close and failed polls; only reasoned fields of the reverse proxy are set; default 502 error handler. the forwarder never replaces the fetched request object; each shim queue has one sending side. the backend-facing transport dials through stateless hooks (no remembered failure); one garbled ID never fails the whole pending list. Not decided: panics inside dependencies.")
 
 claim("C08", "interval abstract interpretation over SSA on a complete finite partition + loop-structure rule",
       "The delay function touches its argument through one comparison and one shift, so the 64-bit argument range splits into "
@@ -69,7 +69,7 @@ claim("C09", "dominance under flag valuation (partial evaluation) + value proven
       "map store, or Del+Add), its value is the user the proxy reported in its own reply header (App Engine side: the signed-in "
       "user through role-checked parameters), under -forward-user-id / -strip-credentials every path to the handler-chain "
       "invocation passes the write / the Authorization delete on the forwarded request itself (so shim dials are covered), nothing "
-      "after the invocation, and the shim dials with stripWSHeader(request header), which only copies keys.")
+      "after the invocation, and the shim dials with stripWSHeader(request header), which only copies keys; no code of the chain (sessions, banner, websockets) writes Authorization or the user-ID header; the stand-alone proxy removes Connection from client requests before storing them (so the identity header cannot be named hop-by-hop).")
 
 claim("C10", "lockset + must-pass-through under status valuation + literal-field provenance + string-equality truth table",
       "Decides for all requests, sessions and schedules: the session LRU is only touched under Cache.mu (exclusive); for every "
@@ -85,14 +85,14 @@ claim("C11", "sibling agreement by partial evaluation + channel inventory + prov
       "one producer/consumer goroutine each; the data endpoint walks the decoded slice by index synchronously and aborts on the "
       "first error; writer and reader move (Type, Data) of exactly one message / one ReadMessage result; polls return every "
       "received message in receive order; injection parses the whole message, only adds missing keys, keeps the type and falls "
-      "back to the original on error; session IDs are unique; a poll never discards messages it already took from the queue and reports an error only when the queue is closed and drained; each queue has one receiving side; the enqueueing select waits only for the queue and the connection's own end; a failed injection never returns before the enqueue; clientMessages is fed from one place (no fast path beside a backlog).")
+      "back to the original on error; session IDs are unique; a poll never discards messages it already took from the queue and reports an error only when the queue is closed and drained; each queue has one receiving side; the enqueueing select waits only for the queue and the connection's own end; a failed injection never returns before the enqueue; clientMessages is fed from one place (no fast path beside a backlog); the writer goroutine leaves its loop only for the connection's end (the close frame travels through the queue behind the data).")
 
 claim("C12", "channel typestate + every-path-answers (must-pass-through) + status oracle + lifecycle pairing",
       "Decides for every call order and interleaving: no channel with concurrent senders is closed and closes happen once; every "
       "send reachable from an endpoint selects on the connection's done channel, receives have timer/default alternatives; every "
       "CFG path of the five endpoint handlers produces an HTTP answer with constant status in {200,400,408,500}; an unknown "
       "session leads only to 400, failed send/poll to 400, only close and a failed poll forget a session; concurrent opens get distinct IDs; a poll delivers what it received before reporting closed; reader/writer cancel the "
-      "connection context on every exit, a goroutine closes the backend socket after Done, Close() makes the writer exit (the close frame is not queued behind a test of the closed channel); session-table keys are of a comparable concrete type. every store into the session table is keyed by the atomic increment on every path (no client-chosen IDs); recording a status code never waits for another goroutine; each queue has one sending side. Not "
+      "connection context on every exit, a goroutine closes the backend socket after Done, Close() makes the writer exit (the close frame is not queued behind a test of the closed channel); session-table keys are of a comparable concrete type. every store into the session table is keyed by the atomic increment on every path (no client-chosen IDs); recording a status code never waits for another goroutine; each queue has one sending side. an http.Error status that is not one constant has only allowed constants among its values. Not "
       "decided: that gorilla's WriteMessage returns in bounded time on a dead peer.")
 
 claim("C13", "must-assign (definite overwrite) per URL field + who-may-dial table + mounting/dispatch dominance",
@@ -108,14 +108,14 @@ claim("C14", "partial evaluation on predicate results + predicate truth tables +
       "the status and lets the body pass; framed requests get the original body; frameable ones get the frame and the uncacheable / "
       "sameorigin headers; Write forwards iff writeBytes; 1xx does not latch; predicate truth tables (only GET, only 200, not "
       "attachment, content-type constants); the shim touches nothing (not even the body) unless Content-Type contains html, the new "
-      "body is prefix+original (the only body installed; the original is not closed on a served path), and the script is inserted by Replace(…, 1) or by index and slice on the same string; the request URL is never rewritten in place in front of the banner, no append builds on a slice shared between requests; rendered pages live in call-owned (not pooled or captured) buffers and the backend-facing proxy gets no Director/Transport override for injection.")
+      "body is prefix+original (the only body installed; the original is not closed on a served path), and the script is inserted by Replace(…, 1) or by index and slice on the same string; the request URL is never rewritten in place in front of the banner, no append builds on a slice shared between requests; the frame source is targetURL.String() itself (HTML escaping aside); rendered pages live in call-owned (not pooled or captured) buffers and the backend-facing proxy gets no Director/Transport override for injection.")
 
 claim("C15", "sibling agreement (encoder/decoder) by partial evaluation + buffer-discipline provenance + pairing",
       "Byte-stream integrity for all sizes is not decided. Decides the codec/structure it rests on: Write sends one TextMessage "
       "carrying hex of its own argument and reports len(argument); Read accepts exactly that type, decodes the payload it just read, "
       "refills only when its buffer is empty and keeps the remainder from the returned count; no websocket read limit exists while "
       "Write is unsegmented; each bridging function copies a→b and b→a over the same pair with matching WaitGroup counts; non-bridge "
-      "requests reach the pass-through handler with the original (w, r) and are never upgraded; both ends use one StreamingPath constant; the frontend dials only in the goroutine of an accepted client; goroutines started per accepted connection capture only per-iteration variables; the pass-through proxy is the stock single-host proxy; one websocket writer per connection; the dial context is not retained.")
+      "requests reach the pass-through handler with the original (w, r) and are never upgraded; both ends use one StreamingPath constant; the frontend dials only in the goroutine of an accepted client; no SO_LINGER>=0 on bridge sockets (= C16.A); goroutines started per accepted connection capture only per-iteration variables; the pass-through proxy is the stock single-host proxy; one websocket writer per connection; the dial context is not retained.")
 
 claim("C16", "pairing: copy-loop completion must reach a close of the pair; acquisition/release pairing",
       "Timing is not decided. Decides the structural obstacle the property names: in each bridging function, when either "
@@ -129,14 +129,14 @@ claim("C17", "dominance + provenance (validated value) + sibling agreement of St
       "returns the ID it checked for the OAuth e-mail only when allowed; the store compares with == and denies missing records; "
       "admin CRUD is unreachable for non-admins (403), the cron arm is the only exception and api.yaml restricts it; end users are "
       "looked up by their own e-mail and only EndUser-filtered backends are considered; the caching store is stateless, delegates "
-      "with its own parameters (purely for access/routing decisions) and all keys are injective (%q) and role-consistent.")
+      "with its own parameters (purely for access/routing decisions) and all keys are injective (%q) and role-consistent; the GET response cache key renders the user's e-mail and the URL themselves (no masked or normalised user tag).")
 
 claim("C18", "dominance (liveness gate) + truth tables by partial evaluation + purity/determinism of the selection function",
       "Full equivalence with a longest-prefix specification is not decided. Decides: every backend ID returned by the lookups "
       "passed hasBackend(<same ID>, 5 min); hasBackend is 'seen and Since < timeout' on boundary values; the shared lookup runs only "
       "when the user has no match; the lookup is keyed by the decoded r.URL.Path; failure is 404 before any store write; a successful registerBackendAsSeen has written the tracker with time.Now(); the store's list call returns only after it ran, under the caller's context; the selection function is pure and deterministic, updates "
       "its best candidate only under HasPrefix(path, p) and only when there is none yet or len(p) > len(best), records ID and prefix "
-      "of the same backend, and errors exactly when there is no match; neither loop is left early (every prefix of every backend is compared); no cache or memo sits in front of the routing decision; the store call that records a backend as seen is made by the agent-facing wait loop only.")
+      "of the same backend, and errors exactly when there is no match; neither loop is left early (every prefix of every backend is compared); no cache or memo sits in front of the routing decision; the store call that records a backend as seen is made by the agent-facing wait loop only; identity fields of backend definitions are stored as registered (no normalisation that changes the allUsers sentinel) and the candidate queries carry no Limit/Offset/cursor.")
 
 claim("C19", "provenance of IDs and bytes + sibling key agreement + path-sensitive send counting vs. channel capacity + pairing",
       "Blob arithmetic at the 1 MB boundaries is not decided. Decides: the client path stores and awaits under the same (backend, "
@@ -144,7 +144,7 @@ claim("C19", "provenance of IDs and bytes + sibling key agreement + path-sensiti
       "response is stored only when the request exists under that pair; datastore keys agree between write and read, blob parts are "
       "read with one ordered GetMulti in the recorded order without goroutines; Completed=true is set on the read request before it "
       "is written back and the pending query filters it; every error channel's capacity covers its possible senders, WaitGroup "
-      "counts match, both wait loops are bounded by WithTimeout(constant), no cycle of them avoids the Done select, and a time-out maps to 504 on every path; the caching store delegates with its own parameters (context included); cache keys are injective in (backend ID, request ID); the GET response cache key is injective in (user, URL).")
+      "counts match, both wait loops are bounded by WithTimeout(constant), no cycle of them avoids the Done select, and a time-out maps to 504 on every path; the caching store delegates with its own parameters (context included); cache keys are injective in (backend ID, request ID); the GET response cache key is injective in (user, URL), components verbatim; every return of postResponse passed the write of the response or an error report.")
 
 claim("C20", "dominance + who-may-call + partial evaluation of health/threshold comparisons + confinement of the polling context",
       "Exit times are not decided. Decides the ordering and counting structure: waitForHealthy dominates the adapter start and "
@@ -152,4 +152,4 @@ claim("C20", "dominance + who-may-call + partial evaluation of health/threshold 
       "the failure counter is +1 on failure, 0 on success, starts at 0, and the terminating call is reachable exactly for counter ≥ "
       "threshold (clamped to ≥ 1); exactly SIGINT/SIGTERM are registered; after the signal main cancels the polling context, sleeps "
       "the grace period, terminates — or returns at once without one (nothing deferred by main waits); every list call is preceded by the non-blocking cancellation "
-      "test and performs exactly one proxy round trip; runAdapter gives the polling context to the poller only; the polling context never leaves pollForNewRequests and the shared HTTP client is not modified by the poller.")
+      "test and performs exactly one proxy round trip; runAdapter gives the polling context to the poller only; the polling context never leaves pollForNewRequests and the shared HTTP client is not modified by the poller; hostProxy's context reaches the shim/banner constructors only (forwarded requests are not bound to it); every path through the failing side of the health loop counts; nothing waits between signal.Notify and the receive from the signal channel.")
